@@ -2,9 +2,12 @@ import Driver.Common
 import Driver.C01
 import Log4rsModel.Routing.Spec
 /-
-C02 case:   initPath  targets(,)  then 4 fields per configuration (as C01): appenders rootLevel rootRefs loggers
-            — the first configuration is installed by the init path, the others by Handle::set_config
+C02 case:   initPath  targets(,)  first configuration (4 fields as C01: appenders rootLevel rootRefs loggers)
+            then 5 fields per further step:  kind  + the 4 configuration fields, kind =
+              set                                  Handle::set_config
+              reinit-config | reinit-handler | reinit-raw | reinit-file   a further init_* call (must return Err)
 observation: steps joined by `/`, per step:  max_level : enabled bits (targets × levels 1..5) : macro deliveries (, per target × level)
+             a re-initialisation step is prefixed `E!` (the call returned Err) or `K!` (it returned Ok)
 -/
 namespace Driver.C02
 open Log4rs.Proto Log4rs.Routing Log4rs.Routing.Tree Driver
@@ -17,11 +20,15 @@ def decPath (s : String) : Option InitPath :=
   | "file" => some .file
   | _ => none
 
-def decConfigs : List String → Option (List Config)
+def decSteps : List String → Option (List Step)
   | [] => some []
-  | a :: l :: r :: ls :: rest =>
-    match C01.decConfig a l r ls, decConfigs rest with
-    | some c, some cs => some (c :: cs)
+  | k :: a :: l :: r :: ls :: rest =>
+    match C01.decConfig a l r ls, decSteps rest with
+    | some c, some ss =>
+      if k = "set" then some (.setConfig c :: ss)
+      else if k.startsWith "reinit-" then
+        (decPath (k.drop 7).toString).map fun p => .reinit p c :: ss
+      else none
     | _, _ => none
   | _ => none
 
@@ -43,6 +50,22 @@ def specStep (cfg : Config) (targets : List Name) : String :=
   let ps := probesOf targets
   renderStep (specMaxLevel cfg) (ps.map fun p => specEnabled cfg p.1 p.2) (ps.map fun p => specDeliver cfg p.1 p.2)
 
+def reinitMark (ok : Bool) : String := if ok then "K!" else "E!"
+
+def isReinit : Step → Bool
+  | .reinit _ _ => true
+  | .setConfig _ => false
+
+def stepCfg : Step → Config
+  | .reinit _ c => c
+  | .setConfig c => c
+
+/-- the configuration in force after each step, as the statement has it: a failed attempt installs nothing -/
+def inForce : Config → List Step → List Config
+  | _, [] => []
+  | _, .setConfig c :: rest => c :: inForce c rest
+  | cur, .reinit _ _ :: rest => cur :: inForce cur rest
+
 /-- only a strict descendant is as verbose as the global maximum -/
 def deepVerbose (cfg : Config) : Bool :=
   cfg.rootLevel < specMaxLevel cfg &&
@@ -56,40 +79,72 @@ def stepTags (cfgs : List Config) : List String :=
   (if cfgs.any deepVerbose then ["deep-verbose-only"] else []) ++
   (if cfgs.any (fun c => c.rootLevel < specMaxLevel c) then ["descendant-more-verbose"] else []) ++
   (if cfgs.any (fun c => specMaxLevel c = 0) then ["all-off"] else []) ++
-  (if cfgs.any C01.hasImplied then ["implied-intermediate"] else []) ++
-  (if cfgs.length = 1 then ["no-reconfig"] else ["reconfig"])
+  (if cfgs.any C01.hasImplied then ["implied-intermediate"] else [])
+
+def reinitTags (first : Config) (steps : List Step) : List String :=
+  let force := first :: inForce first steps
+  let pairs := steps.zip force          -- (step, configuration in force before it)
+  let re := pairs.filter fun p => isReinit p.1
+  (if re.isEmpty then [] else ["failed-reinit"]) ++
+  (if re.any (fun p => validB (stepCfg p.1) && specMaxLevel (stepCfg p.1) < specMaxLevel p.2) then ["reinit-quieter"] else []) ++
+  (if re.any (fun p => validB (stepCfg p.1) && specMaxLevel p.2 < specMaxLevel (stepCfg p.1)) then ["reinit-louder"] else []) ++
+  (if re.any (fun p => !validB (stepCfg p.1)) then ["reinit-invalid"] else []) ++
+  (if re.any (fun p => match p.1 with | .reinit .config _ => true | _ => false) then ["reinit:init_config"] else []) ++
+  (if re.any (fun p => match p.1 with | .reinit .configWithErrHandler _ => true | _ => false) then ["reinit:init_config_with_err_handler"] else []) ++
+  (if re.any (fun p => match p.1 with | .reinit .rawConfig _ => true | _ => false) then ["reinit:init_raw_config"] else []) ++
+  (if re.any (fun p => match p.1 with | .reinit .file _ => true | _ => false) then ["reinit:init_file"] else []) ++
+  (if ((steps.dropWhile isReinit).any fun s => !isReinit s) && (steps.head?.map isReinit).getD false
+    then ["reinit-before-set"] else []) ++
+  (if ((steps.dropWhile fun s => !isReinit s).any fun s => !isReinit s) then ["reinit-between-sets"] else []) ++
+  (if steps.any (fun s => !isReinit s) then ["reconfig"] else ["no-reconfig"])
 
 def handle : Handler := fun cas obs =>
   match cas, obs with
-  | path :: targets :: cfgFields, [obsLine] =>
+  | path :: targets :: a :: l :: r :: ls :: stepFields, [obsLine] =>
     let obs := splitOnChar '/' obsLine
-    match decPath path, C01.decNames ',' targets, decConfigs cfgFields with
-    | some path, some targets, some (first :: reconfigs) =>
-      let cfgs := first :: reconfigs
-      let steps := (List.range cfgs.length).map fun i =>
-        match run { path, first, reconfigs := reconfigs.take i } with
-        | some s => modelStep s targets
+    match decPath path, C01.decNames ',' targets, C01.decConfig a l r ls, decSteps stepFields with
+    | some path, some targets, some first, some steps =>
+      -- the model: state after the first initialisation and after every further step
+      let states := (List.range (steps.length + 1)).map fun i =>
+        run { path, first, steps := steps.take i }
+      let marks := "" :: steps.map fun s => if isReinit s then reinitMark reinitReturnsOk else ""
+      let model := (states.zip marks).map fun (st, m) =>
+        match st with
+        | some s => m ++ modelStep s targets
         | none => "PANIC"
-      let specs := cfgs.map fun c => specStep c targets
+      -- the statement, evaluated on the implementation's observation
+      let force := first :: inForce first steps
+      let specs := (force.zip marks).map fun (c, m) => m ++ specStep c targets
+      let reinitAt := false :: steps.map isReinit
+      let installed := first :: steps.filterMap fun
+        | .setConfig c => some c
+        | .reinit _ _ => none
       let verdict :=
-        if !cfgs.all validB then "FAIL:generator produced an invalid configuration;sig=C02/invalid-config"
+        if !installed.all validB then "FAIL:generator produced an invalid configuration to install;sig=C02/invalid-config"
         else if obs = specs then "ok"
         else
           let idx := ((obs.zip specs).takeWhile (fun (a, b) => a = b)).length
           let o := obs.getD idx "?"
           let s := specs.getD idx "?"
+          let strip := fun (x : String) => if x.startsWith "E!" || x.startsWith "K!" then (x.drop 2).toString else x
           let part :=
-            match splitOnChar ':' o, splitOnChar ':' s with
+            if o.startsWith "K!" then "returned-ok" else
+            match splitOnChar ':' (strip o), splitOnChar ':' (strip s) with
             | [om, ob, _], [sm, sb, _] =>
               if om ≠ sm then "max-level" else if ob ≠ sb then "enabled" else "macro-delivery"
             | _, _ => "shape"
+          let sig :=
+            if reinitAt.getD idx false then
+              (if part = "max-level" || part = "macro-delivery" then "C02/failed-reinit-changes-max-level"
+               else "C02/failed-reinit-" ++ part)
+            else "C02/" ++ part
           "FAIL:step " ++ toString idx ++ " " ++ part ++ " expected " ++ (s.take 80).toString ++ " got " ++
-            (o.take 80).toString ++ ";sig=C02/" ++ part
-      { model := "/".intercalate steps, spec := verdict,
+            (o.take 80).toString ++ ";sig=" ++ sig
+      { model := "/".intercalate model, spec := verdict,
         tags := (match path with
           | .config => "init_config" | .configWithErrHandler => "init_config_with_err_handler"
-          | .rawConfig => "init_raw_config" | .file => "init_file") :: stepTags cfgs }
-    | _, _, _ => badCase "decode"
+          | .rawConfig => "init_raw_config" | .file => "init_file") :: (stepTags force ++ reinitTags first steps) }
+    | _, _, _, _ => badCase "decode"
   | _, _ => badCase "arity"
 
 end Driver.C02
